@@ -348,6 +348,8 @@ func malformed() []tcase {
 		{Name: "multipart-truncated", Raw: req("/r/k", "PUT", mpct, "--"+b+"\r\nContent-Type: application/x-www-form-urlencoded\r\n\r\na=b\r\n--"+b+"\r\nContent-Type: application/json\r\n\r\n{")},
 		{Name: "multipart-no-boundary-param", Raw: req("/r/k", "PUT", "multipart/mixed", mp(part("application/x-www-form-urlencoded", "a=b"), part("application/json", "{}")))},
 		{Name: "multipart-empty", Raw: req("/r/k", "PUT", mpct, "--"+b+"--\r\n")},
+		{Name: "form-empty-query", Raw: req("/r/k", "GET", "application/x-www-form-urlencoded", "")},
+		{Name: "form-empty-query-delete", Raw: req("/r/k", "DELETE", "application/x-www-form-urlencoded; charset=UTF-8", "")},
 		{Name: "unknown-outer-content-type", Raw: req("/r/k", "GET", "text/plain", "a=b")},
 		{Name: "missing-outer-content-type", Raw: req("/r/k", "GET", "", "a=b")},
 		{Name: "malformed-outer-content-type", Raw: req("/r/k", "GET", "multipart/mixed; boundary", "a=b")},
